@@ -29,6 +29,7 @@ import (
 	"reflect"
 	"runtime"
 	"runtime/debug"
+	"runtime/pprof"
 	"sort"
 	"strings"
 	"sync"
@@ -642,11 +643,11 @@ func c16ChurnRows(rng *rand.Rand, n int) []c16ChurnRec {
 			}
 			return b
 		}
-		l := []int{0, 3, 17, 90, 400, 2100}[rng.Intn(6)]
+		l := []int{0, 3, 17, 90, 400, 1300}[rng.Intn(6)]
 		out[i].A = string(fill(l))
 		out[i].B = fill(rng.Intn(64))
 		copy(out[i].C[:], fill(16))
-		out[i].D = string(fill(4 + rng.Intn(3)*20)[:4+rng.Intn(3)])
+		out[i].D = string(fill(4 + rng.Intn(3)*20))
 		for j := rng.Intn(3); j > 0; j-- {
 			out[i].E = append(out[i].E, string(fill(rng.Intn(30))))
 		}
@@ -662,8 +663,8 @@ func c16ChurnInit() error {
 	for ci, name := range c16CodecNames {
 		var buf bytes.Buffer
 		w := parquet.NewGenericWriter[c16ChurnRec](&buf, parquet.Compression(gen.Codecs[name]),
-			parquet.PageBufferSize([]int{256, 1024, 4096, 700, 9000, 2048}[ci]), parquet.DataPageVersion(1+ci%2), parquet.MaxRowsPerRowGroup(90))
-		if _, err := w.Write(c16ChurnRows(rng, 160)); err != nil {
+			parquet.PageBufferSize([]int{256, 1024, 4096, 700, 9000, 2048}[ci]), parquet.DataPageVersion(1+ci%2), parquet.MaxRowsPerRowGroup(40))
+		if _, err := w.Write(c16ChurnRows(rng, 70)); err != nil {
 			return err
 		}
 		if err := w.Close(); err != nil {
@@ -725,7 +726,7 @@ func c16ChurnUnit(rng *rand.Rand) {
 		name := c16CodecNames[rng.Intn(len(c16CodecNames))]
 		w := parquet.NewGenericWriter[c16ChurnRec](io.Discard, parquet.Compression(gen.Codecs[name]),
 			parquet.PageBufferSize(128<<uint(rng.Intn(7))), parquet.DataPageVersion(1+rng.Intn(2)))
-		w.Write(c16ChurnRows(rng, 40+rng.Intn(60)))
+		w.Write(c16ChurnRows(rng, 20+rng.Intn(40)))
 		if rng.Intn(2) == 0 {
 			w.Flush()
 			w.Write(c16ChurnRows(rng, 20))
@@ -733,7 +734,7 @@ func c16ChurnUnit(rng *rand.Rand) {
 		w.Close()
 	default: // fill, sort, read and reset a buffer
 		b := parquet.NewGenericBuffer[c16ChurnRec](parquet.SortingRowGroupConfig(parquet.SortingColumns(parquet.Ascending("a"))))
-		b.Write(c16ChurnRows(rng, 30+rng.Intn(60)))
+		b.Write(c16ChurnRows(rng, 20+rng.Intn(40)))
 		sort.Sort(b)
 		rows := b.Rows()
 		buf := make([]parquet.Row, 50)
@@ -1357,7 +1358,11 @@ var c16Stat = c16Stats{reported: map[string]int{}}
 func c16CheckHist(c *core.Ctx, cs *c16HistCase, suffix string) (*c16Outcome, string) {
 	o := c16ExecHist(cs)
 	if o.class != "" {
-		c.Violation(o.class+suffix, fmt.Sprintf("%s [readers=%d ops=%s]", o.what, len(cs.Readers), c16Toks(cs.Ops)),
+		class := o.class
+		if suffix != "" {
+			class = suffix
+		}
+		c.Violation(class, fmt.Sprintf("%s [readers=%d ops=%s]", o.what, len(cs.Readers), c16Toks(cs.Ops)),
 			map[string]any{"case": cs, "batch": o.batch, "after_op": o.op})
 		return o, o.class
 	}
@@ -1462,13 +1467,17 @@ func c16RunHist(c *core.Ctx, cs *c16HistCase, bucket string) bool {
 		if f, k := c16HistFails(c, u); f {
 			t, class = u, k
 		} else {
-			suffix = "-reused-destination"
+			suffix = "reused-destination"
 			// the rest of the history still deserves a look
 			defer c16RunHist(c, u, bucket)
 		}
 	}
-	c16Stat.reported[class+suffix]++
-	if c16Stat.reported[class+suffix] > 1 {
+	rep := class
+	if suffix != "" {
+		rep = suffix
+	}
+	c16Stat.reported[rep]++
+	if c16Stat.reported[rep] > 1 {
 		return false
 	}
 	min := c16ShrinkHist(c, t, class)
@@ -1994,4 +2003,558 @@ func c16RunBuf(c *core.Ctx, cs *c16BufCase, bucket string) bool {
 	}
 	c.Violation(class, r.what, min)
 	return false
+}
+
+// ---------------------------------------------------------------------------
+// Part 2: the library never modifies what the caller passes to Write
+// ---------------------------------------------------------------------------
+
+type c16CallerCase struct {
+	Part      string `json:"part"`
+	API       string `json:"api"`
+	Sorted    bool   `json:"sorting"` // sorting columns configured (input is not sorted)
+	Dedupe    bool   `json:"drop_duplicated_rows,omitempty"`
+	Salt      int    `json:"salt"`
+	N         int    `json:"n"`
+	Dup       bool   `json:"repeated_rows"`
+	Codec     string `json:"codec"`
+	Shuffle   int64  `json:"shuffle_seed"`
+	ChurnSeed int64  `json:"churn_seed"`
+	Workers   int    `json:"workers"`
+}
+
+var c16CallerAPIs = []string{"gw.Write", "gw.WriteRows", "w.Write", "w.WriteRows", "gb.Write", "gb.WriteRows", "b.Write", "b.WriteRows",
+	"sw.Write", "sw.WriteRows", "cw.WriteRowValues", "copyrows", "pq.Write"}
+
+// c16SliceReader serves caller-owned rows to CopyRows.
+type c16SliceReader struct {
+	rows []parquet.Row
+	pos  int
+}
+
+func (r *c16SliceReader) ReadRows(dst []parquet.Row) (int, error) {
+	n := 0
+	for n < len(dst) && r.pos < len(r.rows) {
+		dst[n] = append(dst[n][:0], r.rows[r.pos]...)
+		n++
+		r.pos++
+	}
+	if r.pos >= len(r.rows) {
+		return n, io.EOF
+	}
+	return n, nil
+}
+
+// c16CallerInput builds unsorted records (every slice with spare capacity
+// holding sentinels) and the same content as rows.
+func c16CallerInput(cs *c16CallerCase) (recs []c16Rec, rows []parquet.Row) {
+	rng := rand.New(rand.NewSource(cs.Shuffle))
+	ids := rng.Perm(cs.N)
+	recs = make([]c16Rec, cs.N, cs.N+2)
+	for j, id := range ids {
+		if cs.Dup && j > 0 && rng.Intn(3) == 0 {
+			if rng.Intn(2) == 0 {
+				recs[j] = recs[rng.Intn(j)] // shares the slices of an earlier record
+			} else {
+				recs[j] = c16MakeRec(cs.Salt, int(recs[rng.Intn(j)].ID), true, 2)
+			}
+			continue
+		}
+		recs[j] = c16MakeRec(cs.Salt, id, true, 2)
+	}
+	tail := recs[cs.N:cap(recs)]
+	for j := range tail {
+		tail[j] = c16MakeRec(9999, 777+j, true, 2)
+	}
+	rows = make([]parquet.Row, cs.N, cs.N+2)
+	all := rows[:cap(rows)]
+	for j := range all {
+		src := recs[:cap(recs)][j]
+		vals := c16Schema.Deconstruct(nil, &src)
+		row := make(parquet.Row, len(vals), len(vals)+3)
+		for x, v := range vals {
+			if k := v.Kind(); k == parquet.ByteArray || k == parquet.FixedLenByteArray {
+				// the value's bytes live in a caller slice with spare capacity
+				nv := parquet.ByteArrayValue(c16Spare(v.ByteArray(), 4))
+				if k == parquet.FixedLenByteArray {
+					nv = parquet.FixedLenByteArrayValue(c16Spare(v.ByteArray(), 4))
+				}
+				v = nv.Level(v.RepetitionLevel(), v.DefinitionLevel(), v.Column())
+			}
+			row[x] = v
+		}
+		sp := row[len(vals):cap(row)]
+		for x := range sp {
+			sp[x] = parquet.ByteArrayValue([]byte("SENTINEL-VALUE")).Level(0, 0, x)
+		}
+		all[j] = row
+	}
+	return recs, rows
+}
+
+var c16Sink any
+
+type c16Flat struct {
+	ID int64  `parquet:"id"`
+	S  string `parquet:"s"`
+}
+
+func c16ExecCaller(cs *c16CallerCase) (o *c16Outcome) {
+	o = &c16Outcome{batch: -1, op: -1}
+	stage := "setup"
+	defer func() {
+		if r := recover(); r != nil {
+			o.fail("panic", -1, -1, "%s: panic at stage %q: %v", cs.API, stage, r)
+		}
+	}()
+	recs, rows := c16CallerInput(cs)
+	useRows := strings.HasSuffix(cs.API, "Rows") || cs.API == "copyrows" || cs.API == "cw.WriteRowValues"
+	// column-wise input of the column writers
+	var colVals [][]parquet.Value
+	if cs.API == "cw.WriteRowValues" {
+		ids := make([]parquet.Value, cs.N, cs.N+2)
+		ss := make([]parquet.Value, cs.N, cs.N+2)
+		for j := range ids[:cap(ids)] {
+			id, s := int64(7000+j), []byte("SENTINEL")
+			if j < cs.N {
+				id, s = recs[j].ID, c16Spare([]byte(recs[j].S), 4)
+			}
+			ids[:cap(ids)][j] = parquet.Int64Value(id).Level(0, 0, 0)
+			ss[:cap(ss)][j] = parquet.ByteArrayValue(s).Level(0, 0, 1)
+		}
+		colVals = [][]parquet.Value{ids, ss}
+	}
+	var colRows []parquet.Row
+	if colVals != nil {
+		colRows = []parquet.Row{colVals[0], colVals[1]}
+		c16Sink = colRows // heap allocated: stack growth would move it and change its address
+	}
+	canon := func() []byte {
+		switch {
+		case colVals != nil:
+			return c16CanonRowsFull(colRows)
+		case useRows:
+			return c16CanonRowsFull(rows)
+		default:
+			w := c16Canon{full: true}
+			w.val(reflect.ValueOf(&recs).Elem())
+			return w.buf
+		}
+	}
+	before := canon()
+	o.values = cs.N
+	o.nontrivial = cs.N > 1
+	check := func() {
+		o.compares++
+		if now := canon(); !bytes.Equal(now, before) && o.class == "" {
+			detail := c16DiffBytes(before, now)
+			o.fail("caller-slice-modified", -1, -1, "%s (sorting=%v, %d rows, repeated=%v): the caller's input changed after stage %q: %s", cs.API, cs.Sorted, cs.N, cs.Dup, stage, detail)
+		}
+	}
+	do := func(name string, f func() error) {
+		if o.class != "" {
+			return
+		}
+		stage = name
+		if err := f(); err != nil {
+			o.fail("error", -1, -1, "%s: stage %q: %v", cs.API, name, err)
+			return
+		}
+		check()
+	}
+	var out bytes.Buffer
+	var wopts []parquet.WriterOption
+	var bopts []parquet.RowGroupOption
+	wopts = append(wopts, parquet.Compression(gen.Codecs[cs.Codec]), parquet.PageBufferSize(300))
+	if cs.Sorted {
+		so := []parquet.SortingOption{parquet.SortingColumns(parquet.Ascending("s"), parquet.Descending("id"))}
+		if cs.Dedupe {
+			so = append(so, parquet.DropDuplicatedRows(true))
+		}
+		wopts = append(wopts, parquet.SortingWriterConfig(so...))
+		bopts = append(bopts, parquet.SortingRowGroupConfig(so...))
+	}
+	churn := func() error {
+		c16Churn(cs.ChurnSeed, cs.Workers)
+		c16GC(false)
+		return nil
+	}
+	switch cs.API {
+	case "gw.Write", "gw.WriteRows", "copyrows":
+		w := parquet.NewGenericWriter[c16Rec](&out, wopts...)
+		do("write", func() (err error) {
+			switch cs.API {
+			case "gw.Write":
+				_, err = w.Write(recs)
+			case "gw.WriteRows":
+				_, err = w.WriteRows(rows)
+			default:
+				_, err = parquet.CopyRows(w, &c16SliceReader{rows: rows})
+			}
+			return err
+		})
+		do("flush", w.Flush)
+		do("write again", func() (err error) {
+			if cs.API == "gw.Write" {
+				_, err = w.Write(recs)
+			} else {
+				_, err = w.WriteRows(rows)
+			}
+			return err
+		})
+		do("close", w.Close)
+	case "pq.Write":
+		do("write", func() error { return parquet.Write[c16Rec](&out, recs, wopts...) })
+	case "w.Write", "w.WriteRows":
+		w := parquet.NewWriter(&out, append([]parquet.WriterOption{c16Schema}, wopts...)...)
+		do("write", func() (err error) {
+			if cs.API == "w.WriteRows" {
+				_, err = w.WriteRows(rows)
+				return err
+			}
+			for j := range recs {
+				if j%2 == 0 {
+					err = w.Write(&recs[j])
+				} else {
+					err = w.Write(recs[j])
+				}
+				if err != nil {
+					return err
+				}
+			}
+			return nil
+		})
+		do("flush", w.Flush)
+		do("close", w.Close)
+	case "gb.Write", "gb.WriteRows", "b.Write", "b.WriteRows":
+		var buf c16AnyBuffer
+		var gbuf *parquet.GenericBuffer[c16Rec]
+		var pbuf *parquet.Buffer
+		if strings.HasPrefix(cs.API, "gb.") {
+			gbuf = parquet.NewGenericBuffer[c16Rec](bopts...)
+			buf = gbuf
+		} else {
+			pbuf = parquet.NewBuffer(append([]parquet.RowGroupOption{c16Schema}, bopts...)...)
+			buf = pbuf
+		}
+		do("write", func() (err error) {
+			switch cs.API {
+			case "gb.Write":
+				_, err = gbuf.Write(recs)
+			case "b.Write":
+				for j := range recs {
+					if err = pbuf.Write(&recs[j]); err != nil {
+						return err
+					}
+				}
+			default:
+				_, err = buf.WriteRows(rows)
+			}
+			return err
+		})
+		if cs.Sorted {
+			do("sort", func() error { sort.Sort(buf); return nil })
+		}
+		do("write row group", func() error {
+			w := parquet.NewGenericWriter[c16Rec](&out, wopts...)
+			if _, err := w.WriteRowGroup(buf); err != nil {
+				return err
+			}
+			return w.Close()
+		})
+		do("reset", func() error { buf.Reset(); return nil })
+	case "sw.Write", "sw.WriteRows":
+		w := parquet.NewSortingWriter[c16Rec](&out, int64(3+cs.N/3), wopts...)
+		do("write", func() (err error) {
+			if cs.API == "sw.Write" {
+				_, err = w.Write(recs)
+			} else {
+				_, err = w.WriteRows(rows)
+			}
+			return err
+		})
+		do("flush", w.Flush)
+		do("write again", func() (err error) {
+			if cs.API == "sw.Write" {
+				_, err = w.Write(recs)
+			} else {
+				_, err = w.WriteRows(rows)
+			}
+			return err
+		})
+		do("close", w.Close)
+	case "cw.WriteRowValues":
+		w := parquet.NewGenericWriter[c16Flat](&out, wopts...)
+		do("write", func() error {
+			for ci, cw := range w.ColumnWriters() {
+				if _, err := cw.WriteRowValues(colVals[ci]); err != nil {
+					return err
+				}
+			}
+			return nil
+		})
+		do("close", w.Close)
+	default:
+		o.fail("bad-op", -1, -1, "unknown API %q", cs.API)
+	}
+	do("churn", churn)
+	return o
+}
+
+func c16RunCaller(c *core.Ctx, cs *c16CallerCase, bucket string) bool {
+	key, _ := json.Marshal(cs)
+	o := c16ExecCaller(cs)
+	c.Case(bucket, string(key), o.nontrivial)
+	c16Stat.compares += o.compares
+	if o.class == "" {
+		return true
+	}
+	class := o.class
+	c16Stat.reported["caller/"+class]++
+	if c16Stat.reported["caller/"+class] > 1 {
+		return false
+	}
+	min := *cs
+	for _, f := range []func(*c16CallerCase){
+		func(t *c16CallerCase) { t.Workers = 0 },
+		func(t *c16CallerCase) { t.Dup = false },
+		func(t *c16CallerCase) { t.Dedupe = false },
+		func(t *c16CallerCase) { t.N = 2 },
+		func(t *c16CallerCase) { t.N = 3 },
+		func(t *c16CallerCase) { t.N = t.N / 2 },
+	} {
+		t := min
+		f(&t)
+		if t.N >= 1 && t.N <= min.N {
+			if r := c16ExecCaller(&t); r.class == o.class {
+				min = t
+			}
+		}
+	}
+	r := c16ExecCaller(&min)
+	if r.class != o.class {
+		r, min = o, *cs
+	}
+	c.Violation(class, r.what, min)
+	return false
+}
+
+// ---------------------------------------------------------------------------
+// run / replay
+// ---------------------------------------------------------------------------
+
+func runC16(c *core.Ctx) {
+	if pf := os.Getenv("C16_PROF"); pf != "" {
+		f, _ := os.Create(pf)
+		pprof.StartCPUProfile(f)
+		defer pprof.StopCPUProfile()
+	}
+	parquet.VerifSetPoison(true)
+	if runtime.GOMAXPROCS(0) > 4 {
+		runtime.GOMAXPROCS(4) // explicit GCs on many Ps spend their time contending in the sweeper
+	}
+	defer func() {
+		if c16TmpDir != "" {
+			os.RemoveAll(c16TmpDir)
+		}
+	}()
+	c.Res.Rule = "Pools poison what is returned to them. FILES of known content: typed files of c16Rec rows (int64, string, dictionary string, []byte, [16]byte, [5]byte, uuid, *string, []string, nested struct with string/*string/[]byte, map[string]string; cell lengths 0..300; written row by row so every value is known) over every byte array encoding (default, plain, delta length, delta byte array, dictionary) x codec (none snappy gzip brotli zstd lz4) x data page v1/v2 x page buffer 64..4096 x 1..n row groups, and generated generic files (gen.Case, >= 2 byte array leaves, nested/optional/repeated). HISTORIES of 4..40 operations over 2..4 readers (RowGroup.Rows, parquet.Reader, GenericReader[T], parquet.Read/ReadFile; sync and async) of possibly different files: ReadRows (1..200 rows, sometimes into recycled rows), typed reads (sometimes into the previous destination whose shallow copies the caller kept), Row.Clone of the last batch, SeekToRow, Close, churn (other files read by rows and by pages, files written with all codecs, buffers filled/sorted/reset, in this and 2..4 other goroutines), GC (+FreeOSMemory). Every batch is compared with the file content at once and with its deep snapshot after every later operation for as long as the caller is entitled to it (rows until the next call on the same reader; Go values and clones for ever, also after Close and a final churn); the entitlement sets are computed in Go and compared with the model. PAGES: values and dictionary values of 1..3 pages held until Release under churn. BUFFERS: Buffer/GenericBuffer written in several batches (Write/WriteRows), read back after every batch, after sort.Sort (4 sort keys incl. ties and empty strings) and Reset; clones and Go values held across later writes, sort, Reset. CALLER SLICES: 13 write entry points x sorting config x repeated rows, inputs unsorted with spare capacity holding sentinels; full canonical form (contents, order, addresses, capacity region) before vs after write, sort, flush, close, churn. A case is non-trivial when at least one non-empty byte array value was held across at least one churn or GC (caller cases: more than one row); distinct by the JSON of the case."
+	if err := c16ChurnInit(); err != nil {
+		c.Violation("file", "cannot write the churn files: "+err.Error(), nil)
+		return
+	}
+	rng := c.Rng
+	t0 := time.Now()
+	lap := func(what string) {
+		c.Note("time %s: %.1fs", what, time.Since(t0).Seconds())
+		t0 = time.Now()
+	}
+
+	// ---- the pool of files
+	var typed, pool []c16FileSpec
+	encs := []string{"", "plain", "dlba", "dba", "dict"}
+	for k := 0; k < c.N(12, 36); k++ {
+		spec := c16TypedSpec(rng, c.N(90, 240))
+		spec.Enc, spec.Codec, spec.Version = encs[k%len(encs)], c16CodecNames[k%len(c16CodecNames)], 1+(k/2)%2
+		if _, err := c16Build(spec); err != nil {
+			c.Violation("file", fmt.Sprintf("cannot write a typed file: %v", err), spec)
+			continue
+		}
+		typed = append(typed, spec)
+	}
+	pool = append(pool, typed...)
+	skipped := 0
+	for k := 0; k < c.N(6, 20); k++ {
+		spec := c16GenSpec(rng, c.N(70, 160))
+		if _, err := c16Build(spec); err != nil {
+			skipped++
+			continue
+		}
+		pool = append(pool, spec)
+	}
+	if skipped > 0 {
+		c.Note("%d generated files could not be written and were skipped", skipped)
+	}
+	if len(typed) == 0 {
+		return
+	}
+
+	lap("files")
+	// ---- corpus histories
+	for k, spec := range typed {
+		if k >= c.N(5, 15) {
+			break
+		}
+		other := typed[(k+1)%len(typed)]
+		for _, async := range []bool{false, true} {
+			cs := &c16HistCase{Part: "hist", ChurnSeed: int64(k), Workers: 2 * (k % 2),
+				Readers: []c16ReaderSpec{{File: spec, Kind: "rows", Async: async}, {File: spec, Kind: "generic", Async: async}, {File: other, Kind: "reader"}, {File: other, Kind: "whole"}},
+				Ops: []c16Op{{Tok: "r0", N: 17}, {Tok: "t1", N: 5}, {Tok: "x"}, {Tok: "k0"}, {Tok: "s0", K: 3}, {Tok: "g"}, {Tok: "r0", N: 200}, {Tok: "x"},
+					{Tok: "r2", N: 64}, {Tok: "t2", N: 3}, {Tok: "t3"}, {Tok: "x"}, {Tok: "r1", N: 5}, {Tok: "k1"}, {Tok: "c1"}, {Tok: "x"}, {Tok: "t3", N: 1}, {Tok: "c0"}, {Tok: "c2"}, {Tok: "g", Free: true}, {Tok: "x"}}}
+			c16RunHist(c, cs, "held/corpus")
+			if k == 0 && !async {
+				c.Sample(cs)
+			}
+		}
+	}
+
+	lap("corpus histories")
+	// ---- random histories
+	nh := c.N(260, 2600)
+	for i := 0; i < nh; i++ {
+		cs := c16GenHist(rng, pool, 40)
+		bucket := "held/rows"
+		for _, op := range cs.Ops {
+			if op.Tok[0] == 't' {
+				bucket = "held/typed"
+			}
+		}
+		c16RunHist(c, cs, bucket)
+		if i < 2 {
+			c.Sample(cs)
+		}
+	}
+
+	lap("random histories")
+	// ---- pages
+	np := c.N(70, 600)
+	for i := 0; i < np; i++ {
+		spec := pool[rng.Intn(len(pool))]
+		b, err := c16Build(spec)
+		if err != nil {
+			continue
+		}
+		cs := &c16PagesCase{Part: "pages", File: spec, Async: rng.Intn(4) == 0, RG: rng.Intn(len(b.rgRows)), Col: rng.Intn(b.ncols),
+			Hold: 1 + rng.Intn(3), MaxPages: c.N(8, 16), ChurnSeed: rng.Int63n(1 << 40), Workers: rng.Intn(2) * (2 + rng.Intn(3))}
+		c16RunPages(c, cs, "held/pages")
+		if i == 0 {
+			c.Sample(cs)
+		}
+	}
+
+	lap("pages")
+	// ---- buffers: the two repaired defects first
+	for _, g := range []bool{true, false} {
+		for _, rw := range []bool{false, true} {
+			c16RunBuf(c, &c16BufCase{Part: "buffer", Generic: g, Rows: rw, Salt: 3, Batches: []int{1, 2}, SortAfter: -1, ResetAfter: -1, ReadBatch: 10, ChurnSeed: 1}, "held/buffer")
+			c16RunBuf(c, &c16BufCase{Part: "buffer", Generic: g, Rows: rw, Sort: "id-desc", Salt: 3, Batches: []int{12, 3}, SortAfter: 0, ResetAfter: -1, ReadBatch: 5, ChurnSeed: 2}, "held/buffer")
+		}
+	}
+	nb := c.N(80, 700)
+	for i := 0; i < nb; i++ {
+		cs := &c16BufCase{Part: "buffer", Generic: rng.Intn(2) == 0, Rows: rng.Intn(2) == 0, Sort: []string{"", "id-desc", "s", "d", "u"}[rng.Intn(5)],
+			Salt: 1 + rng.Intn(500), SortAfter: -1, ResetAfter: -1, ReadBatch: c16BatchSizes[1+rng.Intn(5)], ChurnSeed: rng.Int63n(1 << 40), Workers: rng.Intn(2) * 2}
+		for k := 1 + rng.Intn(4); k > 0; k-- {
+			cs.Batches = append(cs.Batches, 1+rng.Intn(c.N(25, 60)))
+		}
+		if cs.Sort != "" {
+			cs.SortAfter = rng.Intn(len(cs.Batches))
+		}
+		if rng.Intn(3) == 0 {
+			cs.ResetAfter = rng.Intn(len(cs.Batches))
+		}
+		c16RunBuf(c, cs, "held/buffer")
+		if i == 0 {
+			c.Sample(cs)
+		}
+	}
+
+	lap("buffers")
+	// ---- caller slices
+	for _, api := range c16CallerAPIs {
+		for _, sorted := range []bool{false, true} {
+			for _, dup := range []bool{false, true} {
+				cs := &c16CallerCase{Part: "caller", API: api, Sorted: sorted, Dedupe: sorted && dup, Salt: 5, N: 12, Dup: dup, Codec: "snappy", Shuffle: 4, ChurnSeed: 6}
+				c16RunCaller(c, cs, "caller/"+api)
+			}
+		}
+	}
+	nc := c.N(60, 600)
+	for i := 0; i < nc; i++ {
+		cs := &c16CallerCase{Part: "caller", API: c16CallerAPIs[rng.Intn(len(c16CallerAPIs))], Sorted: rng.Intn(2) == 0, Salt: 1 + rng.Intn(500), N: 1 + rng.Intn(c.N(30, 80)),
+			Dup: rng.Intn(2) == 0, Codec: c16CodecNames[rng.Intn(len(c16CodecNames))], Shuffle: rng.Int63n(1 << 30), ChurnSeed: rng.Int63n(1 << 40), Workers: rng.Intn(2) * 3}
+		cs.Dedupe = cs.Sorted && rng.Intn(3) == 0
+		c16RunCaller(c, cs, "caller/"+cs.API)
+		if i == 0 {
+			c.Sample(cs)
+		}
+	}
+
+	lap("caller slices")
+	c.Note("held batches: %d (rows/records/values: %d), comparisons of a held batch with its snapshot: %d", c16Stat.batches, c16Stat.values, c16Stat.compares)
+	for cl, n := range c16Stat.reported {
+		if n > 1 {
+			c.Note("class %s: %d failing cases in total (the first one shrunk and reported)", cl, n)
+		}
+	}
+	c.Note("rows read from Buffer.Rows() are only held while the buffer is unchanged (Buffer.Rows documents that reader and buffer share memory)")
+	c.Note("async read mode and churn goroutines run under the Go scheduler as it comes; schedules are explored, not enumerated")
+}
+
+func replayC16(c *core.Ctx, raw json.RawMessage) {
+	parquet.VerifSetPoison(true)
+	if err := c16ChurnInit(); err != nil {
+		c.Note("cannot write the churn files: %v", err)
+		return
+	}
+	var wrap struct {
+		Case json.RawMessage `json:"case"`
+	}
+	if err := json.Unmarshal(raw, &wrap); err == nil && len(wrap.Case) > 0 {
+		raw = wrap.Case
+	}
+	var head struct {
+		Part string `json:"part"`
+	}
+	if err := json.Unmarshal(raw, &head); err != nil {
+		c.Note("replay is not a C16 case: %v", err)
+		return
+	}
+	switch head.Part {
+	case "hist":
+		var cs c16HistCase
+		if json.Unmarshal(raw, &cs) == nil {
+			c16RunHist(c, &cs, "replay")
+		}
+	case "pages":
+		var cs c16PagesCase
+		if json.Unmarshal(raw, &cs) == nil {
+			c16RunPages(c, &cs, "replay")
+		}
+	case "buffer":
+		var cs c16BufCase
+		if json.Unmarshal(raw, &cs) == nil {
+			c16RunBuf(c, &cs, "replay")
+		}
+	case "caller":
+		var cs c16CallerCase
+		if json.Unmarshal(raw, &cs) == nil {
+			c16RunCaller(c, &cs, "replay")
+		}
+	default:
+		c.Note("replay is not a C16 case (part %q); rerun the check with the recorded seed", head.Part)
+	}
+	if c16TmpDir != "" {
+		os.RemoveAll(c16TmpDir)
+	}
 }
